@@ -166,7 +166,8 @@ func genC03(t *rapid.T) c03Case {
 			s.PadR = genWS(t, "padr", 0, 2)
 			c.Segs = append(c.Segs, s)
 		default:
-			body := genWS(t, "cws", 0, 1) + rapid.SampledFrom([]string{"", "c", "note\nmore", c.Delims.L() + " x " + c.Delims.R(), c.Delims.L(), "*", "-", " - ", c.Delims.CL()}).Draw(t, "cbody") + genWS(t, "cws2", 0, 1)
+			body := genWS(t, "cws", 0, 1) + rapid.SampledFrom([]string{"", "c", "note\nmore", c.Delims.L() + " x " + c.Delims.R(), c.Delims.L(), "*", "-", " - ", c.Delims.CL(),
+				c.Delims.CR()[1:] + "b", c.Delims.CR()[1:], c.Delims.CR()[1:] + "x" + c.Delims.CL() + " y"}).Draw(t, "cbody") + genWS(t, "cws2", 0, 1)
 			c.Segs = append(c.Segs, c03Seg{Kind: "comment", Text: body})
 		}
 	}
